@@ -64,6 +64,10 @@ pub fn observe_new(bytes: &[u8], with_msg: bool) -> J {
     }
 }
 
+pub fn scan_obs_pub(buf: &[u8]) -> J {
+    scan_obs(buf)
+}
+
 fn scan_obs(buf: &[u8]) -> J {
     match guarded(|| {
         let (consumed, mf) = next_msg_frame(buf);
@@ -298,32 +302,37 @@ pub fn rec_scan(a: &Args, out: &mut Out) {
             }
         }
         // the iterator on the whole buffer
-        let it = guarded(|| {
-            let mut it = MsgFrameIter::new(&buf);
-            let mut frames = vec![];
-            let o = buf.as_ptr() as usize;
-            let mut steps = 0;
-            for m in &mut it {
-                let fd = m.frame_data();
-                frames.push(json!([(fd.as_ptr() as usize).wrapping_sub(o), fd.len()]));
-                steps += 1;
-                if steps > buf.len() + 2 {
-                    break;
-                }
+        out.emit(iter_obs(&buf));
+    }
+}
+
+/// one MsgFrameIter run on `buf` (+ three extra next() calls), as an Iter event
+pub fn iter_obs(buf: &[u8]) -> J {
+    let it = guarded(|| {
+        let mut it = MsgFrameIter::new(buf);
+        let mut frames = vec![];
+        let o = buf.as_ptr() as usize;
+        let mut steps = 0;
+        for m in &mut it {
+            let fd = m.frame_data();
+            frames.push(json!([(fd.as_ptr() as usize).wrapping_sub(o), fd.len()]));
+            steps += 1;
+            if steps > buf.len() + 2 {
+                break;
             }
-            let consumed = it.consumed();
-            let mut after = vec![];
-            for _ in 0..3 {
-                let nx = (&mut it).next();
-                after.push(json!([nx.is_some() as u8, it.consumed()]));
-            }
-            (frames, consumed, after, steps)
-        });
-        match it {
-            Ok((frames, consumed, after, steps)) => out.emit(json!({"ev": "Iter", "buf": bytes_json(&buf), "frames": frames,
-                "consumed": consumed, "after": after, "runaway": (steps > buf.len() + 2) as u8})),
-            Err(p) => out.emit(json!({"ev": "Iter", "buf": bytes_json(&buf), "frames": [], "consumed": -1, "after": [], "runaway": 0, "panic": p})),
         }
+        let consumed = it.consumed();
+        let mut after = vec![];
+        for _ in 0..3 {
+            let nx = (&mut it).next();
+            after.push(json!([nx.is_some() as u8, it.consumed()]));
+        }
+        (frames, consumed, after, steps)
+    });
+    match it {
+        Ok((frames, consumed, after, steps)) => json!({"ev": "Iter", "buf": bytes_json(buf), "frames": frames,
+            "consumed": consumed, "after": after, "runaway": (steps > buf.len() + 2) as u8}),
+        Err(p) => json!({"ev": "Iter", "buf": bytes_json(buf), "frames": [], "consumed": -1, "after": [], "runaway": 0, "panic": p}),
     }
 }
 
